@@ -90,6 +90,23 @@ def fmtText (d : AnalyzedSource) (sp : Bool) (ts : Nat) : Except Panic (List Cha
     | some (_, t) => t
     | none => d.text)
 
+/-- whitespace-only variants of a text: CRLF terminators, no final newline, extra final newlines,
+    a blank before every newline -/
+def wsVariants (text : List Char) : List (String × List Char) :=
+  [("crlf", text.flatMap (fun c => if c == '\n' then ['\r', '\n'] else [c])),
+   ("nofinalnl", (text.reverse.dropWhile (· == '\n')).reverse),
+   ("extranl", text ++ ['\n', '\n']),
+   ("trailsp", text.flatMap (fun c => if c == '\n' then [' ', '\n'] else [c]))]
+
+def fmtOf (text : List Char) (sp : Bool) (n : Nat) : Option (List Char) :=
+  match AnalyzedSource.new text with
+  | .error _ => none
+  | .ok d =>
+    match Fmt.format d sp n with
+    | .error _ => none
+    | .ok none => some text
+    | .ok (some (_, t)) => some t
+
 def fmtSpecOps (op : String) (args : List String) (impl : String) : Option String :=
   match op, args with
   | "JUDGEFMT09", [t, sp, ts] | "JUDGEFMT10", [t, sp, ts] | "JUDGEFMT11", [t, sp, ts] =>
@@ -116,6 +133,17 @@ def fmtSpecOps (op : String) (args : List String) (impl : String) : Option Strin
               | .error e => s!"bad:{panicStr e}"
               | .ok none => "ok"
               | .ok (some _) => "bad:second-format-returns-an-edit")
+    | _, _ => none
+  | "PROPFMTWS", [t, sp, ts] =>
+    match textOfHex t, ts.toNat? with
+    | some text, some n =>
+      some (match fmtOf text (sp == "1") n with
+        | none => "bad:PANIC"
+        | some base =>
+          match (wsVariants text).find? (fun (_, v) => fmtOf v (sp == "1") n != some base) with
+          | none => "ok"
+          | some (name, v) =>
+            if (fmtOf v (sp == "1") n).isNone then "bad:PANIC" else s!"bad:variant-{name}-formats-differently")
     | _, _ => none
   | "PROPFMTCANON", [t1, t2, sp, ts] =>
     match textOfHex t1, textOfHex t2, ts.toNat? with
